@@ -93,7 +93,7 @@ def _check_structure(rec, case, mats, rng, sig):
             bad('nonzero() positions in compact-layout order', same_as_set=sameset, first_got=[I[:4].tolist(), J[:4].tolist()], first_ref=[I_ref[:4].tolist(), J_ref[:4].tolist()])
         if set(zip(I_ref.tolist(), J_ref.tolist())) != set(zip(*[a.tolist() for a in np.nonzero(K)])):
             raise AssertionError('reference inconsistent')
-    if L >= 2:
+    if L >= 1:
         ok, IJ = guarded(rec, case, dict(sig, route='nonzero_lower'), S.nonzero, lower_tri=True)
         if ok:
             rec.count('oracle:lower_tri')
